@@ -68,7 +68,39 @@ def norm_entry(e):
     return (type(e).__name__,) + tuple(meta if f == 'meta' else getattr(e, f) for f in e._fields)
 
 
+def print_clause_layer(ctx, lk, conn, entries, options):
+    """PRINT with OPEN / CLOSE / CLEAR and no (or a) filter expression prints the prepared entries, not the raw ledger"""
+    txn_dates = sorted({e.date for e in entries if isinstance(e, data.Transaction)})
+    if len(txn_dates) < 3:
+        return
+    mid = txn_dates[len(txn_dates) // 2]
+    for frm in ['CLOSE ON %s' % mid.isoformat(), 'OPEN ON %s' % mid.isoformat(), 'CLEAR',
+                'OPEN ON %s CLOSE ON %s CLEAR' % (txn_dates[1].isoformat(), txn_dates[-1].isoformat()),
+                'year >= 1900 CLOSE ON %s' % mid.isoformat()]:
+        text = 'PRINT FROM ' + frm
+        try:
+            cp = compiler.compile(conn, parser.parse(text))
+            out = io.StringIO()
+            query_execute.execute_print(cp, out)
+            want = compiler.compile(conn, parser.parse('SELECT account FROM ' + frm)).table.prepare()
+        except Exception as exc:  # noqa: BLE001
+            ctx.record_violation('print-raises-%s' % type(exc).__name__, '%s: %r' % (text, exc))
+            continue
+        reloaded, _, _ = loader.load_string(out.getvalue())
+
+        def key(es):
+            return [(e.date, e.flag, e.narration, len(e.postings)) for e in es if isinstance(e, data.Transaction) and e.flag != 'P']
+        ctx.evaluations += 1
+        ctx.count('print-clauses')
+        ctx.nontrivial_hashes.add(hash((lk, text)))
+        if key(reloaded) != key(want):
+            ctx.record_violation('print-ignores-clauses', '%s: %d transactions printed, %d prepared; first difference %r' % (
+                text, len(key(reloaded)), len(key(want)),
+                next(((a, b) for a, b in zip(key(reloaded), key(want)) if a != b), None)), payload={'statement': text})
+
+
 def print_layer(ctx, lk, conn, entries, options):
+    print_clause_layer(ctx, lk, conn, entries, options)
     for frm in [None, "year >= 2020", "type = 'transaction'", "type != 'transaction'", "flag = '!'", "year = 1800",
                 "has_account('Assets:Bank')", "narration ~ 'rent' OR payee ~ 'Cafe'"]:
         text = 'PRINT' + (' FROM ' + frm if frm else '')
